@@ -31,7 +31,7 @@ MODES = ["yes", "deps", "forced", "forced-deps", "forced-fallback", "packages=.*
 def plan(tier, seed):
     n = 8 if tier == "quick" else 300
     cases = [{"seed": common.subseed(seed, "c07", i), "focused": i % 2 == 0, "modes": 3 if tier == "quick" else 6} for i in range(n)]
-    cases += [{"seed": common.subseed(seed, "c07l", i), "livebid": True} for i in range(3 if tier == "quick" else 60)]
+    cases += [{"seed": common.subseed(seed, "c07l", i), "livebid": True, "_first": i < 6} for i in range(3 if tier == "quick" else 60)]
     return cases
 
 
